@@ -22,7 +22,10 @@ def nat_rules(levels, bits):
             (r"::read_natural::<", ("rank", 1), levels),   # per-level loop
             (r"::read_natural::<", ("rank", 2), bits),     # per-bit loop
             (r"encode_natural::<", "*", levels),
-            (r"^c13::", "*", 70)]
+            (r"^c13::", "*", 70),
+            # any other loop of the reader/writer (e.g. after a helper was split off): the per-bit bound
+            (r"(BitIter|BitWriter)::<.*>::(?!next$|write_bit$)\w+(::<.*>)?$", "fallback", bits),
+            (r"^simplicity::(bit_encoding::\w+::)?\w+(::<.*>)?$", "fallback", bits)]
 
 
 PROPS["C13"] = {
